@@ -41,6 +41,9 @@ contract(
     requires=["self.min_segment_length >= 1", "self.penalty_ >= 0", "self._cost.min_size >= 1", "self._cost.min_size <= self.min_segment_length",
               "PELT_THEORY('all', self.min_segment_length, self.penalty_, n)", "SPLIT_INEQ('all', self.min_segment_length, 0.0, n)"],
     raises={"ValueError": "HASNAN(X) or n < 2 * self.min_segment_length"},
+    modifies={"self.scores": "series:real[n]", "self._cost._X": "=X", "self._cost._is_fitted": "=True", "self._cost.ghost_tok": "int",
+              "self._cost.ghost_n": "=n", "self._cost.ghost_p": "=p", "self._cost.ghost_q": "int"},
+    returns="frame:int[K]",
     ensures={
         # the wiring: data values, the fitted penalty and min_segment_length reach run_pelt; scores and changepoints are its results
         "scores": f"forall(range(self.min_segment_length, n + 1), lambda u: payload(self.scores)[u - 1] == PF({TOKP}, self.min_segment_length, self.penalty_, u))",
@@ -165,6 +168,8 @@ contract(
               "CAPA_THEORY('all', self.collective_penalty_, ZEROS1(), 'all', self.point_penalty_, ZEROS1(), self.min_segment_length, self.max_segment_length, n)",
               "CAPA_SUBADD('all', self.collective_penalty_, ZEROS1(), self.collective_penalty_, self.min_segment_length, self.max_segment_length, n)"],
     raises={"ValueError": "HASNAN(X) or n < self.min_segment_length"},
+    modifies={"self.scores": "series:real[n]", **_FITM("self._collective_saving"), **_FITM("self._point_saving")},
+    returns="frame:list[(int,int)]",
     ensures={
         "scores": "forall(range(1, n + 1), lambda T: payload(self.scores)[T - 1] == CG(self._collective_saving.ghost_tok, self._point_saving.ghost_tok, T))",
         "anomalies_wellformed": "forall(range(len(payload(result))), lambda q: 0 <= payload(result)[q][0] and payload(result)[q][1] <= n and "
@@ -375,3 +380,34 @@ for _cp in _KIND:
             },
             props=["C16", "C03", "C04", "C10"],
         )
+
+# ------------------------------------------------------------------------------------------------ transform_scores glue (C02: scores are those of THIS X)
+contract(
+    target=f"{P}::PELT._transform_scores",
+    params={"self": "obj:PELT", "self._is_fitted": "bool=True", "self.penalty_": "real", "self.min_segment_length": "int", "self._cost": "obj:~BaseCost",
+            "self._cost.min_size": "int", "self.scores": "any", "X": "real[n,p]"},
+    requires=["self.min_segment_length >= 1", "self.penalty_ >= 0", "self._cost.min_size >= 1", "self._cost.min_size <= self.min_segment_length",
+              "PELT_THEORY('all', self.min_segment_length, self.penalty_, n)", "SPLIT_INEQ('all', self.min_segment_length, 0.0, n)"],
+    raises={"ValueError": "HASNAN(X) or n < 2 * self.min_segment_length"},
+    ensures={
+        # whatever was computed or stored before (self.scores is arbitrary at entry), the returned scores are the optimal costs of the prefixes of X
+        "scores_of_this_X": f"forall(range(self.min_segment_length, n + 1), lambda u: payload(result)[u - 1] == PF({TOKP}, self.min_segment_length, self.penalty_, u))",
+        "fitted_on_X": "self._cost._is_fitted == True and self._cost.ghost_n == n",
+    },
+    props=["C02", "C10"],
+)
+
+contract(
+    target=f"{CP}::CAPA._transform_scores",
+    params={"self": "obj:CAPA", "self._is_fitted": "bool=True", "self.collective_penalty_": "real", "self.point_penalty_": "real", "self.min_segment_length": "int",
+            "self.max_segment_length": "int", "self.ignore_point_anomalies": "bool", "self.scores": "any",
+            "self._collective_saving": "obj:~BaseSaving", "self._collective_saving.min_size": "int",
+            "self._point_saving": "obj:~BaseSaving", "self._point_saving.min_size": "int", "X": "real[n,p]"},
+    requires=["self._collective_saving.min_size >= 1", "self._collective_saving.min_size <= self.min_segment_length", "self._point_saving.min_size == 1",
+              "self.min_segment_length >= 2", "self.max_segment_length >= self.min_segment_length",
+              "CAPA_THEORY('all', self.collective_penalty_, ZEROS1(), 'all', self.point_penalty_, ZEROS1(), self.min_segment_length, self.max_segment_length, n)",
+              "CAPA_SUBADD('all', self.collective_penalty_, ZEROS1(), self.collective_penalty_, self.min_segment_length, self.max_segment_length, n)"],
+    raises={"ValueError": "HASNAN(X) or n < self.min_segment_length"},
+    ensures={"scores_of_this_X": "forall(range(1, n + 1), lambda T: payload(result)[T - 1] == CG(self._collective_saving.ghost_tok, self._point_saving.ghost_tok, T))"},
+    props=["C03", "C10"],
+)
